@@ -5,9 +5,9 @@
      builtins/simple.py lower_abs, codegen_venom/expr.py lower_UnaryOp (Invert); VenomBuilder.select = xor/mul/xor.
    Every template returns exactly b_spec (or reverts exactly when b_spec does): abs(MIN) reverts, addmod/mulmod by 0 revert,
    shift by a negative amount shifts right (arithmetically for int256), by n >= 256 gives 0 (resp. 0 / -1).
-   shift(): the generators test the sign of the amount with `slt` whatever its type; for an amount of type uint256 that is
-   >= 2^255 this is wrong (shift_unsigned_amount_refuted; finding shift-builtin-unsigned-amount-negative), so the
-   exactness theorem asks n <= MAXS (automatic for every other type). *)
+   shift(): the sign of the amount is tested (slt) only when its type is signed; an unsigned amount always shifts left.
+   (Until 1d5ff18 the test was done whatever the type, so a uint256 amount >= 2^255 shifted RIGHT by 2^256-n: finding
+   shift-builtin-unsigned-amount-negative, found while writing this file; shift_unsigned_amount_regression.) *)
 From Coq Require Import ZArith Bool List String Lia.
 From Verif Require Import Base.Word256 C03.LIR C03.VSL C03.ArithSpec C03.WordArith C03.TypeLemmas C03.ArithModel C03.TieBase
   C03.VSubst C03.LegacyExact C03.VenomExact C03.ConvSpec C03.ConvExact C03.PowExact C03.UnsafeExact.
@@ -38,10 +38,10 @@ Definition inv_ok (T : cty) : bool :=
   match T with CNum T => nty_eqb T uint256_t | CBytes m => m =? 32 | CFlag n => (1 <=? n) && (n <=? 256) | _ => false end.
 Definition b_okb (f : bfn) : bool :=
   match f with BShift _ Tb => ty_okb Tb && negb (ndec Tb) | BInvert T => inv_ok T | _ => true end.
-(* operand values the type system allows (shift: see the header for n <= MAXS) *)
+(* operand values the type system allows *)
 Definition b_domb (f : bfn) (vs : list Z) : bool :=
   match f, vs with
-  | BShift sx Tb, [x; n] => in_rangeb (int_t sx) x && in_rangeb Tb n && (n <=? MAXS)
+  | BShift sx Tb, [x; n] => in_rangeb (int_t sx) x && in_rangeb Tb n
   | BAbs, [x] => swordb x
   | BAddmod, [a; b; c] | BMulmod, [a; b; c] => uwordb a && uwordb b && uwordb c
   | BPowMod, [a; b] => uwordb a && uwordb b
@@ -50,8 +50,9 @@ Definition b_domb (f : bfn) (vs : list Z) : bool :=
   end.
 
 (* ---------------- legacy models (operands: any terms) ---------------- *)
-Definition m_shift (sx : bool) (x n : lir) : lir :=
-  LIf (L2 OSlt n (LInt 0)) (L2 (if sx then OSar else OShr) (L2 OSub (LInt 0) n) x) (L2 OShl n x).
+Definition m_shift (sx sb : bool) (x n : lir) : lir :=
+  if sb then LIf (L2 OSlt n (LInt 0)) (L2 (if sx then OSar else OShr) (L2 OSub (LInt 0) n) x) (L2 OShl n x)
+  else L2 OShl n x.
 Definition m_abs (x : lir) : lir :=
   LWith "orig" x
     (LIf (L2 OSlt (LVar "orig") (LInt 0))
@@ -63,7 +64,7 @@ Definition m_invert (T : cty) (x : lir) : lir :=
 
 Definition m_builtin (f : bfn) (a : list lir) : option lir :=
   match f, a with
-  | BShift sx _, [x; n] => Some (m_shift sx x n)
+  | BShift sx Tb, [x; n] => Some (m_shift sx (nsigned Tb) x n)
   | BAbs, [x] => Some (m_abs x)
   | BAddmod, [x; y; z] => Some (m_modop OAddmod x y z)
   | BMulmod, [x; y; z] => Some (m_modop OMulmod x y z)
@@ -77,7 +78,8 @@ Definition p1 : vop := VVar "%1". Definition p2 : vop := VVar "%2". Definition p
 (* VenomBuilder.select(cond, a, b) with results in r1 r2 r3 *)
 Definition v_select (r1 r2 r3 : string) (c a b : vop) : list vinstr :=
   [V2 r1 OXor b a; V2 r2 OMul (VVar r1) c; V2 r3 OXor (VVar r2) b].
-Definition v_shift (sx : bool) : vtemplate :=
+Definition v_shift (sx sb : bool) : vtemplate :=
+  if negb sb then ([V2 "%3" OShl p1 p2], VVar "%3") else
   ([V2 "%3" OSlt (VLit 0) p2; V2 "%4" OSub p2 (VLit 0); V2 "%5" (if sx then OSar else OShr) p1 (VVar "%4");
     V2 "%6" OShl p1 p2] ++ v_select "%7" "%8" "%9" (VVar "%3") (VVar "%5") (VVar "%6"), VVar "%9").
 Definition v_abs : vtemplate :=
@@ -88,7 +90,7 @@ Definition v_invert (T : cty) : vtemplate :=
   match T with CFlag n => ([V2 "%2" OXor (VLit (2 ^ n - 1)) p1], VVar "%2") | _ => ([V1 "%2" ONot p1], VVar "%2") end.
 Definition v_builtin (f : bfn) : vtemplate :=
   match f with
-  | BShift sx _ => v_shift sx | BAbs => v_abs | BAddmod => v_modop OAddmod | BMulmod => v_modop OMulmod
+  | BShift sx Tb => v_shift sx (nsigned Tb) | BAbs => v_abs | BAddmod => v_modop OAddmod | BMulmod => v_modop OMulmod
   | BPowMod => ([V2 "%3" OExp p2 p1], VVar "%3") | BInvert T => v_invert T
   end.
 
@@ -102,12 +104,10 @@ Proof.
   destruct (Z.eq_dec n 0) as [->|]; [reflexivity|]. apply wrap_small. lia.
 Qed.
 
-Lemma sword_of_range T n : ty_ok T -> in_range T n -> n <= MAXS -> sword n.
-Proof.
-  intros Ok H Hn. pose proof (range_words T n Ok H) as F. unfold sword. destruct (nsigned T); cbn [fits256] in F.
-  - exact F.
-  - unfold uword in F. split; [wl | exact Hn].
-Qed.
+Lemma sword_of_range T n : ty_ok T -> nsigned T = true -> in_range T n -> sword n.
+Proof. intros Ok S H. pose proof (range_words T n Ok H) as F. rewrite S in F. exact F. Qed.
+Lemma uword_of_range T n : ty_ok T -> nsigned T = false -> in_range T n -> uword n.
+Proof. intros Ok S H. pose proof (range_words T n Ok H) as F. rewrite S in F. exact F. Qed.
 
 Lemma lxor_ones_sub n x : 0 <= n -> 0 <= x < 2 ^ n -> Z.lxor (2 ^ n - 1) x = 2 ^ n - 1 - x.
 Proof.
@@ -140,12 +140,12 @@ Proof.
 Qed.
 
 (* ---------------- the word computed by each builtin ---------------- *)
-Lemma shift_word sx Tb x n : ty_ok Tb -> in_range (int_t sx) x -> in_range Tb n -> n <= MAXS ->
+Lemma shift_word sx Tb x n : ty_ok Tb -> nsigned Tb = true -> in_range (int_t sx) x -> in_range Tb n ->
   (if w_slt (wrap n) (wrap 0) =? 0 then w_shl (wrap n) (wrap x)
    else ev2 (if sx then OSar else OShr) (w_sub (wrap 0) (wrap n)) (wrap x)) = wrap (shift_spec sx x n).
 Proof.
-  intros OkB Hx Hn Hm. pose proof W_val. pose proof HALF_val.
-  pose proof (sword_of_range Tb n OkB Hn Hm) as Sn.
+  intros OkB Sb Hx Hn. pose proof W_val. pose proof HALF_val.
+  pose proof (sword_of_range Tb n OkB Sb Hn) as Sn.
   assert (OkX : ty_ok (int_t sx)) by (split; cbn; [lia | intros; discriminate]).
   pose proof (range_words _ x OkX Hx) as Fx. cbn [int_t nsigned] in Fx.
   rewrite (slt0_val n Sn), b2z_eq0. unfold shift_spec. unfold sword, MINS, MAXS in Sn.
@@ -154,6 +154,13 @@ Proof.
     + apply w_sar_wrap; [lia | exact Fx].
     + unfold uword in Fx. rewrite (wrap_small x) by exact Fx. apply w_shr_wrap; [lia | exact Fx].
   - rewrite (wrap_small n) by lia. rewrite w_shl_wrap by lia. symmetry. apply wrap_twrap256.
+Qed.
+Lemma shift_word_u sx Tb x n : ty_ok Tb -> nsigned Tb = false -> in_range Tb n ->
+  w_shl (wrap n) (wrap x) = wrap (shift_spec sx x n).
+Proof.
+  intros OkB Sb Hn. pose proof (uword_of_range Tb n OkB Sb Hn) as Un. unfold uword in Un.
+  rewrite (wrap_small n) by exact Un. rewrite w_shl_wrap by exact Un. unfold shift_spec.
+  replace (n <? 0) with false by lia. symmetry. apply wrap_twrap256.
 Qed.
 
 Lemma abs_cases x : sword x -> x < 0 ->
@@ -167,15 +174,16 @@ Proof.
 Qed.
 
 (* ---------------- legacy exactness ---------------- *)
-Theorem shift_exact sx Tb e ex en x n : ty_ok Tb -> in_range (int_t sx) x -> in_range Tb n -> n <= MAXS ->
+Theorem shift_exact sx Tb e ex en x n : ty_ok Tb -> in_range (int_t sx) x -> in_range Tb n ->
   leval e ex = Val (wrap x) -> leval e en = Val (wrap n) ->
-  leval e (m_shift sx ex en) = Val (wrap (shift_spec sx x n)).
+  leval e (m_shift sx (nsigned Tb) ex en) = Val (wrap (shift_spec sx x n)).
 Proof.
-  intros OkB Hx Hn Hm Ex En. pose proof (shift_word sx Tb x n OkB Hx Hn Hm) as SW.
-  unfold m_shift. cbn [leval]. rewrite En. cbn [ev2].
-  destruct (w_slt (wrap n) (wrap 0) =? 0).
-  - cbn [leval]. rewrite Ex. cbn [ev2]. rewrite SW. reflexivity.
-  - cbn [leval]. rewrite Ex. cbn [leval ev2]. rewrite <- SW. destruct sx; reflexivity.
+  intros OkB Hx Hn Ex En. unfold m_shift. destruct (nsigned Tb) eqn:Sb.
+  - pose proof (shift_word sx Tb x n OkB Sb Hx Hn) as SW. cbn [leval]. rewrite En. cbn [ev2].
+    destruct (w_slt (wrap n) (wrap 0) =? 0).
+    + cbn [leval]. rewrite Ex. cbn [ev2]. rewrite SW. reflexivity.
+    + cbn [leval]. rewrite Ex. cbn [leval ev2]. rewrite <- SW. destruct sx; reflexivity.
+  - cbn [leval]. rewrite Ex, En. cbn [ev2]. rewrite (shift_word_u sx Tb x n OkB Sb Hn). reflexivity.
 Qed.
 
 Theorem abs_exact e ex x : sword x -> leval e ex = Val (wrap x) ->
@@ -227,16 +235,12 @@ Proof.
     rewrite lxor_ones_sub by lia. f_equal. symmetry. apply wrap_small. lia.
 Qed.
 
-(* the defect in shift(): an unsigned 256-bit amount with the top bit set is taken as negative *)
-Theorem shift_unsigned_amount_refuted :
+(* regression for the former defect: a uint256 amount with the top bit set shifts LEFT (result 0), never right *)
+Theorem shift_unsigned_amount_regression :
   in_range uint256_t MAXU /\
-  leval [("x"%string, wrap 12); ("y"%string, wrap MAXU)] (m_shift false (LVar "x") (LVar "y")) = Val 6 /\
-  shift_spec false 12 256 = 0 /\ (forall n, 256 <= n -> twrap (int_t false) (12 * 2 ^ n) = 0).
-Proof.
-  split; [vm_compute; split; discriminate|]. split; [vm_compute; reflexivity|]. split; [vm_compute; reflexivity|].
-  intros n Hn. unfold twrap, int_t, nbits. cbn [nbytes nsigned andb]. change (2 ^ (8 * 32)) with W.
-  destruct (W_div_pow n Hn) as [c E]. rewrite E. rewrite Z.mul_assoc. apply Z.mod_mul. pose proof W_val. lia.
-Qed.
+  leval [("x"%string, wrap 12); ("y"%string, wrap MAXU)] (m_shift false false (LVar "x") (LVar "y")) = Val 0 /\
+  leval [("x"%string, wrap 12); ("y"%string, wrap MAXU)] (m_shift false true (LVar "x") (LVar "y")) = Val 6.
+Proof. split; [vm_compute; split; discriminate|]. split; vm_compute; reflexivity. Qed.
 
 (* ---------------- Venom exactness (variable operands; literal operands by VSubst.vrun_sub) ---------------- *)
 Definition benv3 (a b c : Z) : env := [("%3"%string, wrap c); ("%2"%string, wrap b); ("%1"%string, wrap a)].
@@ -259,15 +263,17 @@ Proof.
   destruct (to_signed x <? 0); unfold MAXU; lia.
 Qed.
 
-Theorem vshift_exact sx Tb x n : ty_ok Tb -> in_range (int_t sx) x -> in_range Tb n -> n <= MAXS ->
-  vrun (benv2 x n) (v_shift sx) = Val (wrap (shift_spec sx x n)).
+Theorem vshift_exact sx Tb x n : ty_ok Tb -> in_range (int_t sx) x -> in_range Tb n ->
+  vrun (benv2 x n) (v_shift sx (nsigned Tb)) = Val (wrap (shift_spec sx x n)).
 Proof.
-  intros OkB Hx Hn Hm. pose proof (shift_word sx Tb x n OkB Hx Hn Hm) as SW.
-  pose proof (sword_of_range Tb n OkB Hn Hm) as Sn. rewrite (slt0_val n Sn), b2z_eq0 in SW.
-  unfold v_shift. destruct sx; bstep; rewrite (slt0_val n Sn); f_equal; rewrite <- SW.
-  - rewrite select_val by (try apply sar_uword; apply shl_uword). destruct (n <? 0); reflexivity.
-  - rewrite select_val; [destruct (n <? 0); reflexivity | | apply shl_uword].
-    apply shr_uword; [apply wrap_range | unfold w_sub; apply Z.mod_pos_bound; pose proof W_val; lia].
+  intros OkB Hx Hn. unfold v_shift. destruct (nsigned Tb) eqn:Sb; cbn [negb].
+  - pose proof (shift_word sx Tb x n OkB Sb Hx Hn) as SW.
+    pose proof (sword_of_range Tb n OkB Sb Hn) as Sn. rewrite (slt0_val n Sn), b2z_eq0 in SW.
+    destruct sx; bstep; rewrite (slt0_val n Sn); f_equal; rewrite <- SW.
+    + rewrite select_val by (try apply sar_uword; apply shl_uword). destruct (n <? 0); reflexivity.
+    + rewrite select_val; [destruct (n <? 0); reflexivity | | apply shl_uword].
+      apply shr_uword; [apply wrap_range | unfold w_sub; apply Z.mod_pos_bound; pose proof W_val; lia].
+  - bstep. rewrite (shift_word_u sx Tb x n OkB Sb Hn). reflexivity.
 Qed.
 
 Theorem vabs_exact x : sword x ->
